@@ -16,14 +16,19 @@ VARIABLES queue,    \* requests accepted, not yet in a batch
           txnopen,  \* the writer connection is inside a transaction
           db,       \* committed: set of <<r, k>> effects and "marks r"
           ack,      \* Req -> "none" | "ok" | "err"
-          alive, sent
-vars == <<queue, batch, pc, staged, marks, txnopen, db, ack, alive, sent>>
+          alive, sent,
+          dirty,    \* committed marks not yet consumed by a recomputation (_daily_log rows flagged to recompute)
+          log,      \* requests whose effects the committed daily log counts
+          fresh     \* a recomputation ran and nothing was committed since
+vars == <<queue, batch, pc, staged, marks, txnopen, db, ack, alive, sent, dirty, log, fresh>>
+lvars == <<dirty, log, fresh>>
 Has(d) == d \in DEV
 Eff(r) == {<<r, 1>>, <<r, 2>>}                 \* every request writes two things (two rows, row + deletion record, ...)
 Init == /\ queue = <<>> /\ batch = <<>> /\ pc = "idle" /\ staged = {} /\ marks = FALSE /\ txnopen = FALSE
         /\ db = {} /\ ack = [r \in Req |-> "none"] /\ alive = TRUE /\ sent = {}
+        /\ dirty = {} /\ log = {} /\ fresh = TRUE
 Enqueue(r) == /\ alive /\ r \notin sent /\ sent' = sent \cup {r} /\ queue' = Append(queue, r)
-              /\ UNCHANGED <<batch, pc, staged, marks, txnopen, db, ack, alive>>
+              /\ UNCHANGED <<batch, pc, staged, marks, txnopen, db, ack, alive, dirty, log, fresh>>
 FailAll == ack' = [r \in Req |-> IF \E i \in DOMAIN batch : batch[i] = r THEN "err" ELSE ack[r]]
 Begin == /\ alive /\ pc = "idle" /\ queue # <<>>
          /\ \E k \in 1..MaxBatch : k <= Len(queue) /\ batch' = SubSeq(queue, 1, k) /\ queue' = SubSeq(queue, k + 1, Len(queue))
@@ -31,35 +36,51 @@ Begin == /\ alive /\ pc = "idle" /\ queue # <<>>
             THEN \* BEGIN fails: "cannot start a transaction within a transaction"
                  /\ pc' = "failed" /\ UNCHANGED <<staged, marks, txnopen>>
             ELSE pc' = "begun" /\ txnopen' = TRUE /\ staged' = {} /\ marks' = FALSE
-         /\ UNCHANGED <<db, ack, alive, sent>>
+         /\ UNCHANGED <<db, ack, alive, sent, dirty, log, fresh>>
 ReportFailed == /\ alive /\ pc = "failed" /\ FailAll /\ pc' = "idle" /\ batch' = <<>>
-                /\ UNCHANGED <<queue, staged, marks, txnopen, db, alive, sent>>
+                /\ UNCHANGED <<queue, staged, marks, txnopen, db, alive, sent, dirty, log, fresh>>
 \* the statements of every request of the batch, in order; the i-th one may fail: rollback, everybody is told
 ApplyAll == /\ alive /\ pc = "begun" /\ staged' = UNION {Eff(batch[i]) : i \in DOMAIN batch} /\ pc' = "applied"
-            /\ UNCHANGED <<queue, batch, marks, txnopen, db, ack, alive, sent>>
+            /\ UNCHANGED <<queue, batch, marks, txnopen, db, ack, alive, sent, dirty, log, fresh>>
 ApplyFails == /\ alive /\ pc = "begun" /\ staged' = {} /\ txnopen' = FALSE /\ pc' = "failed"
-              /\ UNCHANGED <<queue, batch, marks, db, ack, alive, sent>>
+              /\ UNCHANGED <<queue, batch, marks, db, ack, alive, sent, dirty, log, fresh>>
 WriteMarks == /\ alive /\ pc = "applied" /\ marks' = TRUE /\ pc' = "marked"
-              /\ UNCHANGED <<queue, batch, staged, txnopen, db, ack, alive, sent>>
+              /\ UNCHANGED <<queue, batch, staged, txnopen, db, ack, alive, sent, dirty, log, fresh>>
 MarksFail == /\ alive /\ pc = "applied" /\ pc' = "failed"
              /\ IF Has("FailureLeavesTxnOpen") THEN UNCHANGED <<staged, txnopen>> ELSE staged' = {} /\ txnopen' = FALSE
-             /\ UNCHANGED <<queue, batch, marks, db, ack, alive, sent>>
-Commit == /\ alive /\ pc = "marked" /\ db' = db \cup staged \cup {<<"marks", batch[i]>> : i \in DOMAIN batch}
-          /\ staged' = {} /\ txnopen' = FALSE /\ pc' = "committed"
+             /\ UNCHANGED <<queue, batch, marks, db, ack, alive, sent, dirty, log, fresh>>
+BatchSet == {batch[i] : i \in DOMAIN batch}
+Commit == /\ alive /\ pc = "marked" /\ staged' = {} /\ txnopen' = FALSE /\ fresh' = FALSE /\ UNCHANGED log
+          /\ IF Has("MarksAfterCommit")
+             THEN \* deviation (seeded change C13): the data is committed, the marks follow in autocommit
+                  db' = db \cup staged /\ pc' = "marks_late" /\ UNCHANGED dirty
+             ELSE db' = db \cup staged \cup {<<"marks", r>> : r \in BatchSet} /\ dirty' = dirty \cup BatchSet /\ pc' = "committed"
           /\ UNCHANGED <<queue, batch, marks, ack, alive, sent>>
+LateMarks == /\ alive /\ pc = "marks_late" /\ db' = db \cup {<<"marks", r>> : r \in BatchSet} /\ dirty' = dirty \cup BatchSet /\ pc' = "committed"
+             /\ UNCHANGED <<queue, batch, staged, marks, txnopen, ack, alive, sent, log, fresh>>
+\* the recomputation (a request of its own batch, one transaction): every marked day is recounted from the stored rows
+Stored == {r \in Req : Eff(r) \subseteq db}
+Recompute == /\ alive /\ pc = "idle" /\ ~txnopen /\ log' = (log \ dirty) \cup (dirty \cap Stored) /\ dirty' = {} /\ fresh' = TRUE
+             /\ UNCHANGED <<queue, batch, pc, staged, marks, txnopen, db, ack, alive, sent>>
+\* reopening the folder (graph_database.rs:249-256 asks for a recomputation at every start)
+Restart == /\ ~alive /\ alive' = TRUE /\ UNCHANGED <<queue, batch, pc, staged, marks, txnopen, db, ack, sent, dirty, log, fresh>>
 CommitFails == /\ alive /\ pc = "marked" /\ pc' = "failed"
                /\ IF Has("FailureLeavesTxnOpen") THEN UNCHANGED <<staged, txnopen>> ELSE staged' = {} /\ txnopen' = FALSE
-               /\ UNCHANGED <<queue, batch, marks, db, ack, alive, sent>>
+               /\ UNCHANGED <<queue, batch, marks, db, ack, alive, sent, dirty, log, fresh>>
 AckAll == /\ alive /\ pc = "committed" /\ ack' = [r \in Req |-> IF \E i \in DOMAIN batch : batch[i] = r THEN "ok" ELSE ack[r]]
-          /\ pc' = "idle" /\ batch' = <<>> /\ UNCHANGED <<queue, staged, marks, txnopen, db, alive, sent>>
+          /\ pc' = "idle" /\ batch' = <<>> /\ UNCHANGED <<queue, staged, marks, txnopen, db, alive, sent, dirty, log, fresh>>
 \* the process dies: what was not committed is gone
 Crash == /\ alive /\ alive' = FALSE /\ staged' = {} /\ txnopen' = FALSE /\ queue' = <<>> /\ batch' = <<>> /\ pc' = "idle"
-         /\ UNCHANGED <<marks, db, ack, sent>>
-Next == (\E r \in Req : Enqueue(r)) \/ Begin \/ ReportFailed \/ ApplyAll \/ ApplyFails \/ WriteMarks \/ MarksFail \/ Commit \/ CommitFails \/ AckAll \/ Crash
+         /\ UNCHANGED <<marks, db, ack, sent, dirty, log, fresh>>
+Next == (\E r \in Req : Enqueue(r)) \/ Begin \/ ReportFailed \/ ApplyAll \/ ApplyFails \/ WriteMarks \/ MarksFail \/ Commit \/ LateMarks \/ CommitFails \/ AckAll \/ Crash \/ Restart \/ Recompute
 Spec == Init /\ [][Next]_vars
 Atomic == \A r \in Req : Eff(r) \subseteq db \/ Eff(r) \cap db = {}
 AckedIsDurable == \A r \in Req : ack[r] = "ok" => Eff(r) \subseteq db
 FailedHasNoEffect == \A r \in Req : ack[r] = "err" => Eff(r) \cap db = {}
 MarksCommittedWithData == \A r \in Req : Eff(r) \subseteq db <=> <<"marks", r>> \in db
+\* what makes the log repairable: stored content the log does not count is marked, in every state (so also after a crash)
+UnloggedIsMarked == \A r \in Req : (Eff(r) \subseteq db /\ r \notin log) => r \in dirty
+LogCountsOnlyStored == \A r \in log : r \in dirty \/ Eff(r) \subseteq db
+RepairedByRecompute == fresh => (log = Stored /\ dirty = {})
 WriterStaysUsable == (alive /\ pc = "idle") => ~txnopen
 =============================================================================
